@@ -604,6 +604,75 @@ def handle_totals_multi(c):
             'kind': 'totals multi-component %s %s' % (c.get('mode') or 'default-mode', info)}
 
 
+# ------------------------------------------------------------------------------------ re-setup histories
+
+def handle_totals_resetup(c):
+    """the SAME Problem (dynamic driver colouring) is set up, run and differentiated several times while the
+    sparsity of its component changes (same names and sizes); after every setup the coloured totals must equal
+    the uncoloured totals of the model as it is then"""
+    mats = [np.array(A, dtype=float) for A in c['mats']]
+    nr, nc = mats[0].shape
+
+    class Mut(om.ExplicitComponent):
+        def initialize(self):
+            self.options.declare('cfg', types=int, default=0)
+
+        def setup(self):
+            A = mats[self.options['cfg']]
+            self.add_input('x', np.ones(nc))
+            self.add_output('y', np.zeros(nr))
+            r, k = np.nonzero(A)
+            if r.size:
+                self.declare_partials('y', 'x', rows=r, cols=k, val=A[r, k])
+
+        def compute(self, i, o):
+            o['y'] = mats[self.options['cfg']] @ i['x']
+
+        def compute_partials(self, i, p):
+            pass
+
+    def build(colored):
+        p = om.Problem()
+        p.model.add_subsystem('c', Mut(), promotes=['*'])
+        p.model.add_design_var('x')
+        p.model.add_objective('y', index=0)
+        if nr > 1:
+            p.model.add_constraint('y', indices=list(range(1, nr)), upper=1000., alias='con',
+                                   scaler=c.get('con_scaler'))
+        p.driver = om.ScipyOptimizeDriver()
+        if colored:
+            p.driver.declare_coloring(direct=bool(c['direct']), show_summary=False, show_sparsity=False,
+                                      num_full_jacs=1, tol=1e-20, min_improve_pct=0.)
+        return p
+    pc, pu = build(True), build(False)
+    bad = []
+    solves = []
+    for k in range(len(mats)):
+        js = []
+        for p in (pc, pu):
+            p.model.c.options['cfg'] = k
+            p.setup(mode=c['mode']) if c.get('mode') else p.setup()
+            p.run_model()
+            try:
+                js.append(np.array(p.compute_totals(return_format='array', driver_scaling=bool(c.get('ds')))))
+            except Exception as e:      # noqa
+                bad.append('setup %d: compute_totals raised %s: %s' % (k + 1, type(e).__name__, str(e)[:150]))
+                break
+        if bad:
+            break
+        col = pc.driver._coloring_info.coloring
+        solves.append(col.total_solves() if col is not None else None)
+        if not np.array_equal(js[0], js[1]):
+            idx = np.argwhere(js[0] != js[1])[0]
+            bad.append('after setup number %d of the same Problem (sparsity changed, names and sizes did not): '
+                       'coloured J[%d,%d]=%r, uncoloured %r; colouring solves per setup %s; matrix %s' % (
+                           k + 1, idx[0], idx[1], float(js[0][tuple(idx)]), float(js[1][tuple(idx)]), solves,
+                           mats[k].tolist()))
+            break
+    return {'res': '__none__', 'ok': not bad, 'msg': '; '.join(bad)[:1500], 'sig': 'totals-resetup-history',
+            'kind': 'totals re-setup x%d %s' % (len(mats), 'colored' if any(v for v in solves) else 'nocoloring')}
+
+
 def handle(c):
     k = c['kind']
     if k == 'pat':
@@ -620,6 +689,8 @@ def handle(c):
         return handle_nlcomp(c)
     if k == 'totals_multi':
         return handle_totals_multi(c)
+    if k == 'totals_resetup':
+        return handle_totals_resetup(c)
     raise ValueError(k)
 
 
